@@ -616,8 +616,9 @@ func kinesisGen(r *Rng, tier string) Case {
 		if r.Chance(15) { // the script may be shorter (implicit whole-call errors) or longer than the budget
 			attempts = r.Range(0, budget+3)
 		}
-		script := kinRandomScript(r, n, attempts)
-		lines = append(lines, fmt.Sprintf("kinesis batch %s %s", kinMsgs(r, n, base), script))
+		msgs := kinMsgs(r, n, base)
+		script := kinRandomScript(r, n-strings.Count(msgs, "!"), attempts) // responses sized for the records in the batch
+		lines = append(lines, fmt.Sprintf("kinesis batch %s %s", msgs, script))
 		base += n
 		// a script that does not end in a success (within the budget) ends the worker: mostly start a new one
 		toks := strings.Split(script, ",")
